@@ -129,7 +129,6 @@ for _lit in ("'ab'", "'abcdef'", "b'ab'", 'None', 'True', 'False', '0.0', '1.0',
 KNOWN_PROGRAMS = {
     "class Base:\n    marker='from Base'\nobject=Base\nclass Derived(object):\n    pass\nprint(Derived.marker)": 'shadowed-object-base-removed',
     "def noisy():\n    print('annotation evaluated')\n    return int\ndef annotated(x: noisy()) -> noisy():\n    return x\nprint(annotated(1))": 'annotation-with-side-effect-removed',
-    "value='global value'\ndef outer():\n    value='function value'\n    class Inner:\n        seen=value\n        value='class value'\n    return Inner.seen\nprint(outer())": 'class-body-name-read-and-assigned',
 }
 # control flow: an early return inside every kind of nested suite, observable through what runs afterwards
 PROGRAMS += [
@@ -139,7 +138,8 @@ PROGRAMS += [
     "log=[]\ndef classify(value):\n    match value:\n        case int():\n            log.append('int')\n            return\n        case _:\n            log.append('other')\n    log.append('fallthrough')\nclassify(1);classify('s')\nprint(log)",
 ]
 PROGRAMS += list(KNOWN_PROGRAMS)
-# fixed in 7a1a7a4: a regression is an ordinary violation
+# fixed in 7a1a7a4 / f054637: a regression is an ordinary violation
+PROGRAMS.append("value='global value'\ndef outer():\n    value='function value'\n    class Inner:\n        seen=value\n        value='class value'\n    return Inner.seen\nprint(outer())")
 PROGRAMS.append("def collect(a, /, **kw):\n    return a, sorted(kw.items())\nprint(collect(1, a=2))")
 
 TAINT_TRIGGERS = ["eval('1+1')", "exec('pass')", "sorted(k for k in locals() if not k.startswith('_'))", "len(globals())>0", "isinstance(vars(), dict)",
@@ -523,6 +523,10 @@ def main(argv):
                 f['attributed'] = 'other' if run(python_minifier.minify(f['input'], **kw))[0] != ref else 'rename'
         except Exception:
             f['attributed'] = 'rename'
+    if '--safe-only' in argv:
+        # C01 quantifies over the documented-safe options only: rename_globals and remove_literal_statements are not among them
+        unsafe = set(l for l, o in OPTION_SETS if o.get('rename_globals') or o.get('remove_literal_statements')) | {'everything', 'rename_globals with __all__'}
+        fails = [f for f in fails if f['options'] not in unsafe and "'rename_globals': True" not in f['options']]
     if only:
         want = only.split(',')
         fails = [f for f in fails if f['oracle'] in want or (f['oracle'] == 'behaviour' and 'behaviour:' + f.get('attributed', 'rename') in want)]
